@@ -1,2 +1,133 @@
-/-! placeholder driver (property C08 not built yet) -/
-def main : IO Unit := IO.println "bad-op"
+import LlgoVerif.Util
+import LlgoVerif.Model.Layout
+/-! Line-protocol driver for C08.
+
+    `q  <target> <term>`        → `a=<size>,<align>,<offs> b=<size>,<align>,<offs> c=<size>,<align>,<fieldalign>,<offs>`
+    `mb <target> <key> <elem>`  → `ks=<n> es=<n> bs=<n> a=… b=… c=…`  (the three computations on the bucket struct)
+    `cl <target> <term>`        → `c=<size>,<align>,<offs>` (natural C layout) or `notc`
+    `pf <target> <term>`        → `<padFree t> <padFree (toRaw t)>`
+    `tg <target>`               → the target record
+
+    target ∈ amd64 | arm64 | 386 | arm | wasm | custom:<ptr>,<gc 0/1>,<word>,<maxalign>,<i8>,<i16>,<i32>,<i64>,<f32>,<f64>,<ptr>,<cmax>
+    term: b i8 i16 i32 i64 u8 u16 u32 u64 i u up f32 f64 c64 c128 str usp | F | F1 | E | I | P(t) S(t) C(t) N(t)
+          | A(n,t) | M(k,v) | T(t,…)                   (same grammar as harness/c08/main.go)
+    <offs> = `-` non-struct, `.` struct without fields, else o1:o2:… -/
+open LlgoVerif LlgoVerif.Util LlgoVerif.Layout
+
+def basicOf : String → Option Basic
+  | "b" => some .bool | "i8" => some .int8 | "i16" => some .int16 | "i32" => some .int32 | "i64" => some .int64
+  | "u8" => some .uint8 | "u16" => some .uint16 | "u32" => some .uint32 | "u64" => some .uint64
+  | "i" => some .int | "u" => some .uint | "up" => some .uintptr | "f32" => some .float32 | "f64" => some .float64
+  | "c64" => some .complex64 | "c128" => some .complex128 | "str" => some .string | "usp" => some .unsafePointer
+  | _ => none
+
+def isIdChar (c : Char) : Bool := c.isAlphanum
+
+def takeIdent (cs : List Char) : List Char × List Char := (cs.takeWhile isIdChar, cs.dropWhile isIdChar)
+
+def expectC (c : Char) : List Char → Option (List Char)
+  | d :: r => if c = d then some r else none
+  | [] => none
+
+mutual
+partial def pTerm (cs : List Char) : Option (GoType × List Char) :=
+  let (idc, r) := takeIdent cs
+  let id := String.ofList idc
+  match basicOf id with
+  | some b => some (.basic b, r)
+  | none =>
+    match id with
+    | "F" => some (.func, r)
+    | "F1" => some (.func, r)
+    | "E" => some (.iface true, r)
+    | "I" => some (.iface false, r)
+    | "P" => do let r ← expectC '(' r; let (e, r) ← pTerm r; let r ← expectC ')' r; pure (.pointer e, r)
+    | "S" => do let r ← expectC '(' r; let (e, r) ← pTerm r; let r ← expectC ')' r; pure (.slice e, r)
+    | "C" => do let r ← expectC '(' r; let (e, r) ← pTerm r; let r ← expectC ')' r; pure (.chan e, r)
+    | "N" => do let r ← expectC '(' r; let (e, r) ← pTerm r; let r ← expectC ')' r; pure (.named e, r)
+    | "A" => do
+      let r ← expectC '(' r
+      let (nc, r) := takeIdent r
+      let n ← (String.ofList nc).toNat?
+      let r ← expectC ',' r
+      let (e, r) ← pTerm r
+      let r ← expectC ')' r
+      pure (.array n e, r)
+    | "M" => do
+      let r ← expectC '(' r
+      let (k, r) ← pTerm r
+      let r ← expectC ',' r
+      let (v, r) ← pTerm r
+      let r ← expectC ')' r
+      pure (.map k v, r)
+    | "T" => do
+      let r ← expectC '(' r
+      match r with
+      | ')' :: r => pure (.struct .nil, r)
+      | _ =>
+        let (fs, r) ← pFields r
+        pure (.struct fs, r)
+    | _ => none
+partial def pFields (cs : List Char) : Option (Fields × List Char) := do
+  let (t, r) ← pTerm cs
+  match r with
+  | ',' :: r => let (fs, r) ← pFields r; pure (.cons t fs, r)
+  | ')' :: r => pure (.cons t .nil, r)
+  | _ => none
+end
+
+def parseTerm (s : String) : Option GoType :=
+  match pTerm s.toList with
+  | some (t, []) => some t
+  | _ => none
+
+def parseTarget (s : String) : Option Target :=
+  match s with
+  | "amd64" => some amd64 | "arm64" => some arm64 | "386" => some i386 | "arm" => some arm | "wasm" => some wasm
+  | _ =>
+    if s.startsWith "custom:" then
+      match ((s.drop 7).toString.splitOn ",").mapM String.toNat? with
+      | some [p, gc, w, m, a8, a16, a32, a64, f32, f64, ap, cm] => some ⟨p, gc != 0, w, m, a8, a16, a32, a64, f32, f64, ap, cm⟩
+      | _ => none
+    else none
+
+def offsStr (isS : Bool) (o : List Nat) : String :=
+  if !isS then "-" else if o.isEmpty then "." else ":".intercalate (o.map toString)
+
+def layStr (isS : Bool) (l : Layout) : String := s!"{l.size},{l.align},{offsStr isS l.offsets}"
+
+def three (tg : Target) (t : GoType) : String :=
+  let s := isStruct t
+  let c := abiTable tg t
+  s!"a={layStr s (goSizes tg t)} b={layStr s (llvmLayout tg t)} c={c.size},{c.align},{abiFieldAlign tg (toRaw t)},{offsStr s c.offsets}"
+
+def showTarget (t : Target) : String :=
+  s!"ptr={t.ptrSize} gc={t.gcStyle} word={t.wordSize} maxalign={t.maxAlign} i8={t.llI8} i16={t.llI16} i32={t.llI32} i64={t.llI64} f32={t.llF32} f64={t.llF64} p={t.llPtr} cmax={t.cMaxAlign}"
+
+def handle (line : String) : String :=
+  match fields line with
+  | ["q", tgs, ts] =>
+    match parseTarget tgs, parseTerm ts with
+    | some tg, some t => three tg t
+    | _, _ => "bad-op"
+  | ["mb", tgs, ks, vs] =>
+    match parseTarget tgs, parseTerm ks, parseTerm vs with
+    | some tg, some k, some v =>
+      let (a, b, c) := mapSizes tg k v
+      s!"ks={a} es={b} bs={c} " ++ three tg (mapBucket tg (toRaw k) (toRaw v))
+    | _, _, _ => "bad-op"
+  | ["cl", tgs, ts] =>
+    match parseTarget tgs, parseTerm ts with
+    | some tg, some t => if isC t then "c=" ++ layStr (isStruct t) (cLayout tg t) else "notc"
+    | _, _ => "bad-op"
+  | ["pf", tgs, ts] =>
+    match parseTarget tgs, parseTerm ts with
+    | some tg, some t => s!"{padFree tg t} {padFree tg (toRaw t)}"
+    | _, _ => "bad-op"
+  | ["tg", tgs] =>
+    match parseTarget tgs with
+    | some tg => showTarget tg
+    | none => "bad-op"
+  | _ => "bad-op"
+
+def main : IO Unit := lineLoop handle
